@@ -24,7 +24,7 @@ RULE = (
     "must satisfy len(R) = 16*B, multiple of 128, R[:len(img)] = img, rest 0xFF and at most one page, "
     "CRC-16/MODBUS(R) = C (own table-driven CRC, checked against 0x4B37); an index >= B yields nothing or an empty "
     "block; an Intel-HEX file written by an own writer (drawn record lengths, start address, case, optional type-04 "
-    "record) loads to exactly its bytes. Non-trivial = length not a multiple of 128, or >= 2 nodes, or a "
+    "record) loads to exactly its bytes; nodes that report the offered image itself or erased flash as what they run. Non-trivial = length not a multiple of 128, or >= 2 nodes, or a "
     "non-monotone request order; distinct by (length, content class, order class, nodes)."
 )
 
@@ -118,6 +118,19 @@ def _check_case(case, stats, keep):
         if blocks is not None and (b, c) != (blocks, crc):
             fail("config_response_differs_between_nodes", f"{(b, c)} vs {(blocks, crc)}")
         blocks, crc = b, c
+        if case.get("reports"):
+            # what the node says it is running is the node's business: a node that reports exactly the image it is
+            # being offered (a forced re-flash, a flash that went bad) or erased flash is answered like any other
+            words = (fw[0], fw[1], b, c, 0x0102) if case["reports"] == "same" else (0xFFFF, 0xFFFF, 0xFFFF, 0xFFFF, 0x0102)
+            replies = fetch(drv, nid, O.words_hex(*words), 0)
+            if len(replies) != 1 or replies[0][:3] != (nid, 255, 4) or replies[0][4] != 1:
+                fail("config_response_missing", f"config request of node {nid} reporting {words[:4]} answered with {replies}")
+            try:
+                again = O.check_config(image, fw, replies[0][5])
+            except ValueError as exc:
+                fail("config_response_wrong", f"to a node reporting {words[:4]}: {exc}")
+            if again != (b, c):
+                fail("config_response_differs_between_nodes", f"to a node reporting {words[:4]}: {again} vs {(b, c)}")
     if case.get("reissue"):
         # the update is issued again WITHOUT an image (another node joins, or the call is simply repeated in the
         # middle of a download): the firmware stored for this type / version stays what it is
@@ -301,6 +314,8 @@ def make_case(length, rnd, full=None, via_hex=False):
         }
         if case["hexopts"]["skip_blank"] and rnd.random() < 0.7:
             case["fill"] = "gap"
+    if rnd.random() < 0.3:
+        case["reports"] = rnd.choice(["same", "same", "blank"])
     return case
 
 
